@@ -5,6 +5,7 @@ package packetdump
 
 import (
 	"github.com/pion/interceptor"
+	"github.com/pion/rtcp"
 )
 
 // ReceiverInterceptorFactory is a interceptor.Factory for a ReceiverInterceptor.
@@ -79,7 +80,10 @@ func (r *ReceiverInterceptor) BindRTCPReader(reader interceptor.RTCPReader) inte
 			if attr == nil {
 				attr = make(interceptor.Attributes)
 			}
-			pkts, err := attr.GetRTCPPackets(bytes[:i])
+			// The packets are formatted on the logger goroutine after Read has returned and
+			// rtcp.Unmarshal keeps slices of its input (application-defined data, profile
+			// extensions, unknown packet types): parse a private copy of the read buffer.
+			pkts, err := rtcp.Unmarshal(append([]byte(nil), bytes[:i]...))
 			if err != nil {
 				return 0, nil, err
 			}
